@@ -63,6 +63,31 @@ Qed.
 Theorem inputs_keep_identity_lemma blocks init x : (forall b, In b blocks -> ~ In x (c_outs E b)) -> accumulate blocks init x = init x.
 Proof. apply accumulate_untouched. Qed.
 
+(** REQUESTED SUBSETS.  CombinedBlock._jacobian asks each block only for the rows of the names in [want] -- the requested outputs together with the
+    intermediate names (outputs of some block that some block reads) -- and skips a block none of whose outputs is wanted.  On every wanted name,
+    and on every model input, the result is the full accumulation: requesting a subset of the outputs changes nothing in what is returned. *)
+Definition acc_step_sel (want : nat -> bool) (total : nat -> E) (b : cblock) : nat -> E :=
+  fun o => if inb o (c_outs E b) && want o then esum (fun m => emul (c_J E b o m) (total m)) (c_ins E b) else total o.
+Definition accumulate_sel (want : nat -> bool) (blocks : list cblock) (init : nat -> E) : nat -> E := fold_left (acc_step_sel want) blocks init.
+
+Theorem requested_subset_lemma (want : nat -> bool) (all : list cblock) :
+  (forall b m, In b all -> In m (c_ins E b) -> (exists b', In b' all /\ In m (c_outs E b')) -> want m = true) ->
+  forall blocks, (forall b, In b blocks -> In b all) -> forall t1 t2,
+  (forall x, want x = true \/ (forall b, In b all -> ~ In x (c_outs E b)) -> t1 x = t2 x) ->
+  forall x, want x = true \/ (forall b, In b all -> ~ In x (c_outs E b)) -> accumulate_sel want blocks t1 x = accumulate blocks t2 x.
+Proof.
+  intros Hreq. induction blocks as [|b bs IH]; intros Hsub t1 t2 Hag x Hx; cbn [accumulate_sel Chain.accumulate fold_left]; [apply Hag; exact Hx|].
+  fold (accumulate_sel want bs (acc_step_sel want t1 b)). fold (accumulate bs (acc_step t2 b)).
+  apply IH; [intros b' Hb'; apply Hsub; right; exact Hb' | | exact Hx].
+  intros y Hy. unfold acc_step_sel, Chain.acc_step. destruct (inb y (c_outs E b)) eqn:Ey; cbn [andb]; [|apply Hag; exact Hy].
+  assert (Hw : want y = true).
+  { destruct Hy as [Hy|Hy]; [exact Hy|]. exfalso. apply inb_In in Ey. apply (Hy b); [apply Hsub; left; reflexivity | exact Ey]. }
+  rewrite Hw. apply esum_ext. intros m Hm. f_equal. apply Hag.
+  destruct (in_dec Nat.eq_dec m (flat_map (c_outs E) all)) as [Hin|Hnin].
+  - left. apply in_flat_map in Hin. destruct Hin as [b' [Hb' Hmo]]. apply (Hreq b m); [apply Hsub; left; reflexivity | exact Hm | exists b'; split; assumption].
+  - right. intros b' Hb' Hmo. apply Hnin. apply in_flat_map. exists b'. split; assumption.
+Qed.
+
 (** UNIQUENESS: along a well-formed order the chain-rule equations plus the identity rows of the model inputs determine the
     totals; hence the accumulation does not depend on which admissible order the sort produced. *)
 Lemma solutions_agree blocks : ordered blocks -> forall tot1 tot2 : nat -> E,
